@@ -240,6 +240,17 @@ func (e *Env) constVal(c *types.Const) Val {
 
 // unify makes two scalar operands agree on sort (literals adopt the other side's sort).
 func (e *Env) unify(a, b Val) (Val, Val) {
+	// nil next to a pointer: the nil pointer of that type
+	if _, isNil := a.(NilV); isNil {
+		if pb, ok := b.(PtrV); ok {
+			return PtrV{Kind: pkHeap, Ref: IntC(0), Root: pb.Root, Typ: pb.Typ}, b
+		}
+	}
+	if _, isNil := b.(NilV); isNil {
+		if pa, ok := a.(PtrV); ok {
+			return a, PtrV{Kind: pkHeap, Ref: IntC(0), Root: pa.Root, Typ: pa.Typ}
+		}
+	}
 	as, okA := a.(Sc)
 	bs, okB := b.(Sc)
 	if !okA || !okB || as.T.Sort == bs.T.Sort {
